@@ -269,26 +269,27 @@ type Rec struct {
 }
 
 type Node struct {
-	Cand      *X // candidate <config>
-	Running   *X
-	User      string
-	Password  string
-	Key       string
-	HA        string // "", "disabled", "active", "passive", "active-primary", "active-secondary", "garbled"
-	JobPend   int    // number of PEND answers before the result
-	JobFail   bool
-	Log       *evlog.Log
-	Faults    []Fault
-	Transcr   []Rec
-	FaultSeq  int
-	FaultK    int
-	Fired     map[string]int
-	Commits   int
-	Strict    bool
-	jobs      map[string]int
-	k         int
-	Unreach   bool // this address does not answer (backup address test)
-	lastJobOK bool
+	Cand        *X // candidate <config>
+	Running     *X
+	User        string
+	Password    string
+	Key         string
+	HA          string // "", "disabled", "active", "passive", "active-primary", "active-secondary", "garbled"
+	JobPend     int    // number of PEND answers before the result
+	JobFail     bool
+	Log         *evlog.Log
+	RedirectAPI bool // requests to /api are answered with a redirect to /api/
+	Faults      []Fault
+	Transcr     []Rec
+	FaultSeq    int
+	FaultK      int
+	Fired       map[string]int
+	Commits     int
+	Strict      bool
+	jobs        map[string]int
+	k           int
+	Unreach     bool // this address does not answer (backup address test)
+	lastJobOK   bool
 }
 
 func NewNode(cfg *X) *Node {
@@ -348,6 +349,13 @@ func (t rt) RoundTrip(req *http.Request) (*http.Response, error) {
 	}
 	rec := Rec{K: n.k, Seq: n.Log.Add("dev", "req[%s] %s", class, trunc(shown, 160)), Class: class, Req: shown}
 	defer func() { n.Transcr = append(n.Transcr, rec) }()
+	if n.RedirectAPI && req.URL.Path == "/api" && n.fault(n.k) == nil {
+		// The web server of the device redirects /api to /api/ (query kept).
+		n.Log.Add("dev", "redirect to /api/")
+		r := resp(req, 308, "")
+		r.Header.Set("Location", "/api/?"+req.URL.RawQuery)
+		return r, nil
+	}
 	if n.Unreach {
 		rec.Fault = "unreachable"
 		return nil, fmt.Errorf("dial tcp %s: connect: no route to host", req.URL.Host)
